@@ -700,6 +700,9 @@ class Adapter(object):
         a = np.array([[0.0, 1.0], [1.0, 3.0], [2.0, 2.0]])
         metrics.residuals(a[:, 1], a[:, 0] * 2.0)
         metrics.residuals(a[:, 1].copy(), a[:, 0] * 2.0)
+        import gc
+        gc.collect()
+        gc.freeze()
         if tier == 'thorough':
             self.load_traces()
 
